@@ -121,11 +121,11 @@ Definition af_post (v v' : vam) (U X : list Z) (lr : lref) (s : Z) (r : afres) :
   end.
 
 Lemma alloc_from_block_inv v U X lr bid size align flags sub s :
-  VamInvA v U X -> Bits.pow2 align -> 0 <= s < zlen (v_tab v) -> a_allocated (get_alloc v s) = false ->
+  VamInvA v U X -> Bits.pow2 align -> min_ok v lr align -> 0 <= s < zlen (v_tab v) -> a_allocated (get_alloc v s) = false ->
   let '(v', r) := alloc_from_block c v lr bid size align flags sub s in af_post v v' U X lr s r.
 Proof.
-  intros HI Hal Hs Hdead.
-  pose proof (VamInvStep.alloc_from_block_inv c v U X lr bid size align flags sub s (va_s _ _ _ HI) Hal Hs Hdead) as P.
+  intros HI Hal Hmin Hs Hdead.
+  pose proof (VamInvStep.alloc_from_block_inv c v U X lr bid size align flags sub s (va_s _ _ _ HI) Hal Hmin Hs Hdead) as P.
   pose proof (alloc_from_block_AM c Hc Hmax Hlarge v U X lr bid size align flags sub s (va_a _ _ _ HI) (va_s _ _ _ HI) Hal Hs Hdead) as Q.
   destruct (alloc_from_block c v lr bid size align flags sub s) as (v' & r).
   destruct r; cbn [af_post VamInvStep.af_post] in *; auto; destruct P as (I1 & T1 & L1 & R1);
@@ -146,12 +146,12 @@ Definition ap_post (v v' : vam) (U X : list Z) (lr : lref) (s : Z) (r : out unit
   end.
 
 Lemma try_blocks_inv ids : forall v U X lr size align flags sub s,
-  VamInvA v U X -> Bits.pow2 align -> 0 <= s < zlen (v_tab v) -> a_allocated (get_alloc v s) = false ->
+  VamInvA v U X -> Bits.pow2 align -> min_ok v lr align -> 0 <= s < zlen (v_tab v) -> a_allocated (get_alloc v s) = false ->
   let '(v', r) := try_blocks c v lr ids size align flags sub s in af_post v v' U X lr s r.
 Proof.
-  induction ids as [|bid tl IH]; intros v U X lr size align flags sub s HI Hal Hs Hdead; cbn [try_blocks].
+  induction ids as [|bid tl IH]; intros v U X lr size align flags sub s HI Hal Hmin Hs Hdead; cbn [try_blocks].
   - cbn. split; [auto|]. split; [apply tab_frame_refl|]. split; [apply lists_frame_refl|auto].
-  - pose proof (alloc_from_block_inv v U X lr bid size align flags sub s HI Hal Hs Hdead) as A.
+  - pose proof (alloc_from_block_inv v U X lr bid size align flags sub s HI Hal Hmin Hs Hdead) as A.
     destruct (alloc_from_block c v lr bid size align flags sub s) as (v1 & r). destruct r; cbn in A |- *; auto.
     + destruct A as (HI1 & T1 & L1 & (a & Sa & Ka & La)).
       destruct (sort_list_inv v1 U X lr HI1) as (HI2 & T2 & L2).
@@ -160,7 +160,7 @@ Proof.
       apply (slot_is_frame _ _ _ _ _ T2); auto.
     + destruct A as (HI1 & T1 & L1 & D1).
       assert (Hs1 : 0 <= s < zlen (v_tab v1)) by (destruct T1 as (E & _); lia).
-      specialize (IH v1 U X lr size align flags sub s HI1 Hal Hs1 D1).
+      specialize (IH v1 U X lr size align flags sub s HI1 Hal (min_ok_frame _ _ _ _ L1 Hmin) Hs1 D1).
       destruct (try_blocks c v1 lr tl size align flags sub s) as (v2 & r2).
       destruct r2; cbn in IH |- *; auto;
         destruct IH as (HI2 & T2 & L2 & R2); (split; [auto|]; split; [eapply tab_frame_trans_same; eauto|]; split; [eapply lists_frame_trans; eauto|auto]).
@@ -229,10 +229,10 @@ Proof.
 Qed.
 
 Lemma alloc_page_inv v U X lr size align flags sub s :
-  VamInvA v U X -> Bits.pow2 align -> 0 <= s < zlen (v_tab v) -> a_allocated (get_alloc v s) = false ->
+  VamInvA v U X -> Bits.pow2 align -> min_ok v lr align -> 0 <= s < zlen (v_tab v) -> a_allocated (get_alloc v s) = false ->
   let '(v', r) := alloc_page c v lr size align flags sub s in ap_post v v' U X lr s r.
 Proof.
-  intros HI Hal Hs Hdead. unfold alloc_page. destruct (get_blist v lr) as [l|] eqn:Hg; [|exact I].
+  intros HI Hal Hmin Hs Hdead. unfold alloc_page. destruct (get_blist v lr) as [l|] eqn:Hg; [|exact I].
   pose proof (heap_budget_sameA c Hc Hmax Hlarge (v_m v) (type_heap c (bl_type l))) as Hb.
   destruct (heap_budget c (v_m v) (type_heap c (bl_type l))) as ((m1 & usage) & budget). cbn [fst] in Hb.
   assert (K1 : keeps v (set_m v m1) U X s).
@@ -241,7 +241,7 @@ Proof.
   pose proof (ai_pref _ _ _ (va_a _ _ _ HI) _ _ Hg) as Hpref.
   pose proof K1 as (I1 & T1 & L1 & D1).
   assert (Hs1 : 0 <= s < zlen (v_tab (set_m v m1))) by (cbn; auto).
-  pose proof (try_blocks_inv (search_order c l flags) (set_m v m1) U X lr size align flags sub s I1 Hal Hs1 D1) as TB.
+  pose proof (try_blocks_inv (search_order c l flags) (set_m v m1) U X lr size align flags sub s I1 Hal (min_ok_frame _ _ _ _ L1 Hmin) Hs1 D1) as TB.
   destruct (try_blocks c (set_m v m1) lr (search_order c l flags) size align flags sub s) as (v2 & r).
   pose proof (af_keeps _ _ _ _ _ _ _ TB) as TK.
   destruct r; cbn [ap_post]; auto.
@@ -267,7 +267,7 @@ Proof.
     destruct (get_block v4 lr bid) as [nb|] eqn:Hgb; [|exact I]. destruct (meta_size (bk_meta nb) <? size); [exact I|].
     pose proof K4 as (I4 & T4 & L4 & D4).
     assert (Hs4 : 0 <= s < zlen (v_tab v4)) by (destruct T4 as (E & _); lia).
-    pose proof (alloc_from_block_inv v4 U X lr bid size align flags sub s I4 Hal Hs4 D4) as AF.
+    pose proof (alloc_from_block_inv v4 U X lr bid size align flags sub s I4 Hal (min_ok_frame _ _ _ _ L4 Hmin) Hs4 D4) as AF.
     destruct (alloc_from_block c v4 lr bid size align flags sub s) as (v5 & r2).
     pose proof (af_keeps _ _ _ _ _ _ _ AF) as AK.
     assert (Hgive : forall code2, keeps v4 v5 U X s ->
@@ -444,7 +444,7 @@ Proof.
 Qed.
 
 Lemma allocate_loop_inv slots : forall v U X lr done size align flags sub,
-  VamInvA v U X -> Bits.pow2 align -> NoDup (slots ++ done) ->
+  VamInvA v U X -> Bits.pow2 align -> min_ok v lr align -> NoDup (slots ++ done) ->
   dead_slots v slots -> block_slots v lr X done ->
   let '(v', r, done') := allocate_loop c v lr slots done size align flags sub in
   match r with
@@ -458,10 +458,10 @@ Lemma allocate_loop_inv slots : forall v U X lr done size align flags sub,
     end
   end.
 Proof.
-  induction slots as [|s tl IH]; intros v U X lr done size align flags sub HI Hal Hnd Hdead Hdone; cbn [allocate_loop].
+  induction slots as [|s tl IH]; intros v U X lr done size align flags sub HI Hal Hmin Hnd Hdead Hdone; cbn [allocate_loop].
   - split; [split; [auto|split; [apply tab_frame_refl|apply lists_frame_refl]]|]. split; [auto|]. split; [auto|]. split; [auto|]. intros ? [].
   - destruct (Hdead s (or_introl eq_refl)) as (Hr & Hd).
-    pose proof (alloc_page_inv v U X lr size align flags sub s HI Hal Hr Hd) as AP.
+    pose proof (alloc_page_inv v U X lr size align flags sub s HI Hal Hmin Hr Hd) as AP.
     destruct (alloc_page c v lr size align flags sub s) as (v1 & r).
     cbn [app] in Hnd. inversion Hnd as [|? ? Hns Hnd']; subst.
     assert (Hdone1 : tab_frame v v1 [s] -> block_slots v1 lr X done).
@@ -479,7 +479,7 @@ Proof.
       { destruct (Hdone1 T1) as (Hndd & Hd1). split; [constructor; [intros H; apply Hns; apply in_app_iff; auto|auto]|].
         intros s1 [<-|H1]; [|apply Hd1; auto]. split; [|eauto].
         intros HX. destruct (vi_dang _ _ _ _ (va_s _ _ _ HI) _ HX) as (a2 & S2 & _). rewrite (get_alloc_slot _ _ _ S2) in Hd. destruct S2. congruence. }
-      specialize (IH v1 U X lr (s :: done) size align flags sub I1 Hal Hnd1 (Hdead1 T1) Hbs1).
+      specialize (IH v1 U X lr (s :: done) size align flags sub I1 Hal (min_ok_frame _ _ _ _ L1 Hmin) Hnd1 (Hdead1 T1) Hbs1).
       destruct (allocate_loop c v1 lr tl (s :: done) size align flags sub) as ((v2 & r2) & done2).
       destruct r2 as [[]|code| |]; auto; destruct IH as (K2 & B2 & S2 & Q2 & O2);
         (split; [eapply keptS_trans; [exact (Kw I1 T1 L1)|eapply keptS_weaken; [exact K2|intros; right; auto]]|]);
@@ -512,7 +512,9 @@ Proof.
     destruct Hal as [->|H']; [apply Z.ltb_ge in E; lia|auto]. }
   assert (Hnd0 : NoDup (slots ++ [])) by (rewrite app_nil_r; auto).
   assert (Hbs0 : block_slots v lr X []) by (split; [constructor|intros ? []]).
-  pose proof (allocate_loop_inv slots v U X lr [] size _ flags sub HI Hal' Hnd0 Hdead Hbs0) as AL.
+  assert (Hmin0 : min_ok v lr (if align0 <? bl_minalign l then bl_minalign l else align0)).
+  { intros l' G'. rewrite Hg in G'. injection G' as <-. destruct (align0 <? bl_minalign l) eqn:E; [lia|apply Z.ltb_ge in E; lia]. }
+  pose proof (allocate_loop_inv slots v U X lr [] size _ flags sub HI Hal' Hmin0 Hnd0 Hdead Hbs0) as AL.
   destruct (allocate_loop c v lr slots [] size _ flags sub) as ((v1 & r) & done).
   destruct r as [[]|code| |]; auto.
   - destruct AL as (K1 & B1 & _ & _ & O1). split; [auto|]. destruct B1 as (Hndd & Hb1). split; [auto|].
